@@ -1,1 +1,100 @@
-// Kani harnesses (see DESIGN.md §3.2)
+// Kani harnesses for table/src/lib.rs. Compiled inside the real crate under cfg(kani).
+use super::*;
+
+const W: usize = 4; // bitmap words explored (256 local ids), each word over its full 64-bit domain
+
+fn live(bits: &[u64; W], n: usize, local: u32) -> bool {
+    let i = (local / 64) as usize;
+    i < n && (bits[i] >> (local % 64)) & 1 == 1
+}
+
+fn mk(words: &[u64; W], n: usize, shard: u32) -> IdAllocator {
+    let mut a = IdAllocator::new(shard);
+    let mut i = 0;
+    while i < n {
+        a.bits.push(words[i]);
+        i += 1;
+    }
+    a
+}
+
+/// C06 (identifier clause): `IdAllocator::alloc` hands out an id that no live prefix of the shard holds, marks
+/// exactly that id live, keeps the shard index in bits 31..24 and picks the least free local id.
+/// BOUNDED: <= 4 bitmap words (256 live ids), each word fully symbolic; invariant: no trailing zero word.
+#[kani::proof]
+#[kani::unwind(7)]
+fn c06_id_alloc_unique() {
+    let words: [u64; W] = kani::any();
+    let n: usize = kani::any();
+    kani::assume(n <= W - 1); // room for the push of a new word
+    kani::assume(n == 0 || words[n - 1] != 0); // representation invariant
+    let shard: u32 = kani::any();
+    kani::assume(shard < 256);
+    let mut a = mk(&words, n, shard);
+    let id = a.alloc();
+    let local = id & 0x00FF_FFFF;
+    assert!(id >> 24 == shard, "C06.id_carries_shard_index");
+    assert!(!live(&words, n, local), "C06.allocated_id_was_free");
+    // now live, everything else unchanged
+    let n2 = a.bits.len();
+    assert!(n2 >= n && n2 <= W);
+    let mut after = [0u64; W];
+    let mut i = 0;
+    while i < n2 { after[i] = a.bits[i]; i += 1; }
+    assert!(live(&after, n2, local), "C06.allocated_id_is_live");
+    let probe: u32 = kani::any();
+    kani::assume(probe < (W as u32) * 64 && probe != local);
+    assert!(live(&after, n2, probe) == live(&words, n, probe), "C06.alloc_changes_no_other_id");
+    // least free id
+    let lower: u32 = kani::any();
+    kani::assume(lower < local);
+    assert!(live(&words, n, lower), "C06.alloc_returns_least_free_id");
+    assert!(n2 == 0 || a.bits[n2 - 1] != 0, "C06.no_trailing_zero_word");
+    kani::cover!(n2 > n, "a new bitmap word was pushed");
+    kani::cover!(n2 == n && n > 0, "a free bit in an existing word was used");
+    core::mem::forget(a);
+    kani::cover!(true, "harness end reachable");
+}
+
+/// `IdAllocator::dealloc` of a live id frees exactly that id and restores the representation invariant.
+/// BOUNDED as above.
+#[kani::proof]
+#[kani::unwind(7)]
+fn c06_id_dealloc_exact() {
+    let words: [u64; W] = kani::any();
+    let n: usize = kani::any();
+    kani::assume(n >= 1 && n <= W);
+    kani::assume(words[n - 1] != 0);
+    let shard: u32 = kani::any();
+    kani::assume(shard < 256);
+    let local: u32 = kani::any();
+    kani::assume(local < (n as u32) * 64 && live(&words, n, local));
+    let mut a = mk(&words, n, shard);
+    a.dealloc((shard << 24) | local);
+    let n2 = a.bits.len();
+    assert!(n2 <= n);
+    let mut after = [0u64; W];
+    let mut i = 0;
+    while i < n2 { after[i] = a.bits[i]; i += 1; }
+    assert!(!live(&after, n2, local), "C06.deallocated_id_is_free");
+    let probe: u32 = kani::any();
+    kani::assume(probe < (W as u32) * 64 && probe != local);
+    assert!(live(&after, n2, probe) == live(&words, n, probe), "C06.dealloc_changes_no_other_id");
+    assert!(n2 == 0 || a.bits[n2 - 1] != 0, "C06.no_trailing_zero_word");
+    kani::cover!(n2 < n, "trailing words were trimmed");
+    core::mem::forget(a);
+    kani::cover!(true, "harness end reachable");
+}
+
+/// must-fail twin: claiming alloc returns a *live* id has to be refuted
+#[kani::proof]
+#[kani::unwind(7)]
+fn c06_id_alloc_mustfail() {
+    let words: [u64; W] = kani::any();
+    let n: usize = kani::any();
+    kani::assume(n <= W - 1);
+    kani::assume(n == 0 || words[n - 1] != 0);
+    let mut a = mk(&words, n, 0);
+    let id = a.alloc();
+    assert!(live(&words, n, id & 0x00FF_FFFF));
+}
